@@ -62,7 +62,10 @@ RemoveUnknown(p) == Free(p) /\ Step([op |-> "remove", p |-> p]) /\ UNCHANGED <<u
 RemoveAll        == defaults = "none" /\ Step([op |-> "removeall"]) /\ AlgRemoveAll
 SetDefaults(d)   == (d = "none" \/ d \in Range(names)) /\ Step([op |-> "setdefaults", d |-> d]) /\ UNCHANGED <<used, comp>>
 
-Pairs == {<<p, q>> : p \in Custom, q \in Custom} \ {<<p, p>> : p \in Custom}
+\* batches: every ordered pair of the macro-defining profiles, and each of the others once in front of and once behind one of them
+MacroProfiles == {"P1", "P2", "P3", "P5"}
+Pairs == ({<<p, q>> : p \in MacroProfiles, q \in MacroProfiles} \ {<<p, p>> : p \in Custom})
+         \cup {<<"P4", "P1">>, <<"P2", "P4">>, <<"P6", "P2">>, <<"P5", "P6">>, <<"P1x", "P2">>, <<"P3", "P1x">>}
 Init == /\ names = <<"B">> /\ defaults = "none" /\ hist = <<>>
         /\ used = FoldUpdate(BaseUsed, <<"B">>) /\ comp = ResetAll(<<"B">>, FoldUpdate(BaseUsed, <<"B">>))
 Next == \/ \E p \in Custom : AddProfile(p) \/ RemoveProfile(p) \/ RemoveUnknown(p)
@@ -76,6 +79,7 @@ View == <<names, defaults, used, comp>>
 AlgAccepted(id) ==
     IF id \in {"none"} THEN {}
     ELSE IF id = "B.color" THEN (IF Registered(names, "B") THEN {"red"} ELSE {})
+    ELSE IF id = "P6.f" THEN (IF Registered(names, "P6") THEN {"p6f"} ELSE {})
     ELSE IF id = "P1.b" /\ "P1x" \in Range(names) THEN {"p1x"}
     ELSE (IF Registered(names, Owner(id)) THEN {comp[CHOOSE n \in Range(names) : Base(n) = Owner(id)][MacroOf(id)]} ELSE {})
          \cup (IF id = "B.z" /\ Registered(names, "P4") THEN {"p4z"} ELSE {})
